@@ -739,7 +739,8 @@ def _mk_graph(spec):
   """spec = (ops [(label, inputs, outputs)], graph inputs, graph outputs, n tensors) -> (subgraph Obj, model Obj)"""
   from sa.consteval import Obj  # pylint: disable=g-import-not-at-top
   ops, gin, gout, nt = spec
-  tensors = [Obj('x:TensorT', {'name': f't{k}'.encode(), 'shape': [1, 4], 'type': 'F32', 'buffer': 0, 'quantization': None}) for k in range(nt)]
+  # every tensor has its own shape; odd ones have a dynamic first dimension whose exported extent is not 1
+  tensors = [Obj('x:TensorT', {'name': f't{k}'.encode(), 'shape': [k + 2, 4], 'shapeSignature': [-1, 4] if k % 2 else None, 'type': 'F32', 'buffer': 0, 'quantization': None}) for k in range(nt)]
   operators = [Obj('x:OperatorT', {'label': lab, 'opcodeIndex': 0, 'inputs': list(i), 'outputs': list(o)}) for lab, i, o in ops]
   sg = Obj('x:SubGraphT', {'tensors': tensors, 'operators': operators, 'inputs': list(gin), 'outputs': list(gout), 'name': b'main'})
   return sg
@@ -881,6 +882,12 @@ def rule_graph_rewrite_simulation(ctx, R: str, title: str = None):
           val = code.value if isinstance(code, Ext) else code
           kind = next((k for k, v in KIND_CODE.items() if v == val), f'<code {val}>')
           got_new.append((kind, f['inputs'][0] if len(f['inputs']) == 1 else tuple(f['inputs']), f['outputs'][0] if len(f['outputs']) == 1 else tuple(f['outputs'])))
+          TS = sg.fields['tensors']
+          ok_idx = all(isinstance(x, int) and 0 <= x < len(TS) for x in f['inputs'][:1] + f['outputs'][:1])
+          if ok_idx and f['inputs'] and f['outputs']:
+            si, so = TS[f['inputs'][0]].fields['shape'], TS[f['outputs'][0]].fields['shape']
+            if not isinstance(si, (list, tuple)) or not isinstance(so, (list, tuple)) or list(si) != list(so):
+              problems.append(f'{tag}inserted {kind} turns shape {si!r} into {so!r}: the new tensor must have the shape of its source')
         else:
           order.append(f['label'])
           want = ref_ops[g][f['label']]
@@ -896,6 +903,10 @@ def rule_graph_rewrite_simulation(ctx, R: str, title: str = None):
         problems.append(f'{tag}graph inputs {sg.fields["inputs"]}; expected {list(gin)}')
       if len(sg.fields['tensors']) != n_t[g]:
         problems.append(f'{tag}{len(sg.fields["tensors"])} tensors; expected {n_t[g]}')
+      for k in range(min(nt, len(sg.fields['tensors']))):
+        tf_ = sg.fields['tensors'][k].fields
+        if tf_['shape'] != [k + 2, 4] or tf_['name'] != f't{k}'.encode():
+          problems.append(f'{tag}original tensor {k} is now named {tf_["name"]!r} with shape {tf_["shape"]!r}')
       names = [t.fields['name'] for t in sg.fields['tensors']]
       if len(set(names)) != len(names) and not any(isinstance(x, absint.Opaque) for x in names):
         problems.append(f'{tag}tensor names not unique: {names}')
@@ -991,7 +1002,8 @@ def rule_pipeline_simulation(ctx, R: str, title: str = None):
 
     def model():
       # like the converter: every tensor has its own buffer (empty for runtime tensors); buffer 0 is the reserved empty one
-      ts = [Obj('x:TensorT', {'name': n.encode(), 'buffer': i + 1, 'type': F32, 'shape': [2, 2] if c else [1, 2], 'quantization': None})
+      # runtime tensors have a dynamic first dimension whose exported extent is 3 (the schema does not say it is 1)
+      ts = [Obj('x:TensorT', {'name': n.encode(), 'buffer': i + 1, 'type': F32, 'shape': [2, 2] if c else [3, 2], 'shapeSignature': None if c else [-1, 2], 'quantization': None})
             for i, (n, c) in enumerate(tensors)]
       os_ = [Obj('x:OperatorT', {'label': lab, 'opcodeIndex': KINDS.index(k), 'inputs': list(i), 'outputs': list(o), 'builtinOptions': None}) for lab, k, i, o in ops]
       sg = Obj('x:SubGraphT', {'tensors': ts, 'operators': os_, 'inputs': list(gin), 'outputs': list(gout), 'name': b'main'})
@@ -1125,6 +1137,9 @@ def rule_pipeline_simulation(ctx, R: str, title: str = None):
         c = codes[f['opcodeIndex']].fields['builtinCode']
         cv = c.value if isinstance(c, Ext) else c
         it_, ot_ = ttype(f['inputs'][0]), ttype(f['outputs'][0])
+        si, so = T[f['inputs'][0]].fields['shape'], T[f['outputs'][0]].fields['shape']
+        if not isinstance(si, (list, tuple)) or not isinstance(so, (list, tuple)) or list(si) != list(so):
+          problems.append(f'inserted operator at {pos} turns shape {si!r} into {so!r} (C02: no tensor is reshaped, graph inputs / outputs keep their shapes)')
         if cv == BO['QUANTIZE']:
           if not (it_ == F32 and ot_ != F32) and not (it_ != F32 and ot_ != F32):
             problems.append(f'QUANTIZE at {pos} converts type {it_} to {ot_}')
